@@ -53,7 +53,7 @@ type Client struct {
 	sess *wamp.Session
 
 	responseTimeout time.Duration
-	awaitingReply   map[wamp.ID]chan wamp.Message
+	awaitingReply   map[wamp.ID]replyWaiter
 
 	eventHandlers map[wamp.ID]EventHandler
 	topicSubID    map[string]wamp.ID
@@ -248,7 +248,7 @@ func NewClient(p wamp.Peer, cfg Config) (*Client, error) {
 		sess: sess,
 
 		responseTimeout: cfg.ResponseTimeout,
-		awaitingReply:   map[wamp.ID]chan wamp.Message{},
+		awaitingReply:   map[wamp.ID]replyWaiter{},
 
 		eventHandlers: map[wamp.ID]EventHandler{},
 		topicSubID:    map[string]wamp.ID{},
@@ -1287,8 +1287,20 @@ func unexpectedMsgError(msg wamp.Message, expected wamp.MessageType) error {
 	return errors.New(s)
 }
 
+// replyWaiter is where the run() goroutine hands a reply to the API call that
+// is waiting for it.
+type replyWaiter struct {
+	msgs chan wamp.Message
+	// gone is closed when the API call has stopped waiting, so that run()
+	// does not block on a reply that arrives just then.
+	gone chan struct{}
+}
+
 func (c *Client) expectReply(id wamp.ID) {
-	wait := make(chan wamp.Message)
+	wait := replyWaiter{
+		msgs: make(chan wamp.Message),
+		gone: make(chan struct{}),
+	}
 	c.sess.Lock()
 	c.awaitingReply[id] = wait
 	c.sess.Unlock()
@@ -1300,14 +1312,16 @@ func (c *Client) expectReply(id wamp.ID) {
 // run() goroutine may be blocked waiting for a reply to be read from the
 // awaiting reply channel.
 func (c *Client) waitForReply(id wamp.ID) (wamp.Message, error) {
-	var wait chan wamp.Message
+	var waiter replyWaiter
 	var ok bool
 	c.sess.Lock()
-	wait, ok = c.awaitingReply[id]
+	waiter, ok = c.awaitingReply[id]
 	c.sess.Unlock()
 	if !ok {
 		return nil, fmt.Errorf("not expecting reply for ID: %v", id)
 	}
+	defer close(waiter.gone)
+	wait := waiter.msgs
 
 	var msg wamp.Message
 	var err error
@@ -1338,14 +1352,16 @@ func (c *Client) waitForReply(id wamp.ID) (wamp.Message, error) {
 // run() goroutine may be blocked waiting for a reply to be read from the
 // awaiting reply channel.
 func (c *Client) waitForReplyWithCancel(ctx context.Context, id wamp.ID, procedure string, progChan chan<- *wamp.Result) (wamp.Message, error) { //nolint:lll
-	var wait chan wamp.Message
+	var waiter replyWaiter
 	var ok bool
 	c.sess.Lock()
-	wait, ok = c.awaitingReply[id]
+	waiter, ok = c.awaitingReply[id]
 	c.sess.Unlock()
 	if !ok {
 		return nil, fmt.Errorf("not expecting reply for ID: %v", id)
 	}
+	defer close(waiter.gone)
+	wait := waiter.msgs
 
 	var msg wamp.Message
 	var err error
@@ -1913,7 +1929,7 @@ func (c *Client) runHandleInterrupt(msg *wamp.Interrupt) {
 }
 
 func (c *Client) runSignalReply(msg wamp.Message, requestID wamp.ID) {
-	var w chan wamp.Message
+	var w replyWaiter
 	var ok bool
 	c.sess.Lock()
 	w, ok = c.awaitingReply[requestID]
@@ -1924,7 +1940,10 @@ func (c *Client) runSignalReply(msg wamp.Message, requestID wamp.ID) {
 		return
 	}
 	select {
-	case w <- msg:
+	case w.msgs <- msg:
+	case <-w.gone:
+		c.log.Println("Received", msg.MessageType(), requestID,
+			"that client is no longer waiting for")
 	case <-c.Done():
 	}
 }
